@@ -9,7 +9,7 @@ PROP = "C07"
 STREAM_MODULES = ["LunaVerif.Lemmas.C07Stream", "LunaVerif.Lemmas.C07StreamCycles", "LunaVerif.Lemmas.C07StreamSeq",
                   "LunaVerif.Lemmas.C07StreamMain", "LunaVerif.Lemmas.C07StreamRun", "LunaVerif.Lemmas.C07StreamExamples",
                   "LunaVerif.Lemmas.C07StreamContracts", "LunaVerif.Lemmas.C07Closed",
-                  "LunaVerif.Lemmas.C07Closed2"]
+                  "LunaVerif.Lemmas.C07Closed2", "LunaVerif.Lemmas.C07Legal"]
 LEAN_MODULES = ["LunaVerif.Props.C07"] + dev_ctl.CYC_MODULES + STREAM_MODULES
 DRIVER = dev_ctl.DRIVER
 REQUIRED_THEOREMS = ["stage_follows_setup", "data_in_only_after_in_setup", "in_token_answered_only_in_data_or_status_in", "out_data_answered_only_in_status_out", "setup_always_restarts", "other_endpoint_tokens_are_stutter", "other_endpoint_transactions_are_stutter",
@@ -19,7 +19,8 @@ REQUIRED_THEOREMS = ["stage_follows_setup", "data_in_only_after_in_setup", "in_t
                      "sim_window", "cycle_refines_event_streams", "cycle_refines_event_all", "cycle_refines_event_streams_run",
                      "ready_cycle_wires", "transmitter_contract", "descriptorPacket_spec", "block_handler_contract", "dist_handler_contract",
                      "wires_indep", "sysStep_ignores_t", "cl_send", "closed_event", "closed_loop_refines_event_run",
-                     "cl2_desc", "closed_event2", "closed2_refines_event_run"]
+                     "cl2_desc", "closed_event2", "closed2_refines_event_run",
+                     "readInv_legal", "legal_read_in_order", "closed2_refines_legal_run"]
 RULE_SYS = ("; next to it the two streamer models of the closed loops (Model/Usb2/ControlCycSys.lean: StreamGen.serStep wired to "
             "the handler model's transmitter wires; Desc.Block.step over Rom.layout of the case's descriptor table wired to "
             "value / length / start_position / start / ready, in the cases with GetDescriptorHandlerBlock) are compared with "
@@ -46,8 +47,9 @@ PARTIAL_STREAMS = (
     "descriptorPacket_spec: the event-level descriptorPacket is C09's specResponse at in-order offsets), the theorem "
     "provides the descriptor-window latencies (SameButLat); remaining hypotheses there: the block handler's constructor "
     "preconditions (wellFormed collection, position register >= 2 bits), well-sized in-order descriptor reads (DescReqOk: "
-    "start_position <= min(wLength, |descriptor|) -- the host stops after a short packet), windows long enough (Fits2From = "
-    "C09's Complete 4); both streamer models inside the loops are co-simulated IN SITU (inside the real handler, on the "
+    "start_position <= min(wLength, |descriptor|)) -- which closed2_refines_legal_run derives from LegalHost "
+    "(legal_read_in_order: invariant ReadInv of legal histories, the host stops after a short packet) --, windows long "
+    "enough (WinFrom / Fits2From = C09's Complete 4); both streamer models inside the loops are co-simulated IN SITU (inside the real handler, on the "
     "model's own wires) in every cycle of the cycle-level co-simulation; for the distributed "
     "descriptor handler only the contract link is proved (dist_handler_contract, lat <= 2: its STALL in the start cycle is "
     "in the expansion -- GapsS.stallNow --, a DATA beat in the start cycle would not be), for the descriptor-handler mux no "
